@@ -59,6 +59,12 @@ def check(run, prog, tier):
     run.rule("C16-J", "the hierarchy takes the parameters of a bath from all its components or refuses a bath that has more than "
                       "one", minimum=1)
     rule_J(run, prog)
+    run.rule("C16-K", "the hierarchy propagates in the rotating frame and hands out what convert_from_RWA makes of it: the frame is "
+                      "left at the same absolute times at which the propagator entered it (the points of the time axis, shared "
+                      "rule C02-M)", minimum=3)
+    from . import c02
+    from ..report import RuleProxy
+    c02.rule_M(RuleProxy(run, "C16-K"), prog)
     run.rule("C16-H", "the hierarchy and its propagator read energies under internal units (reorganisation "
                       "energies, Hamiltonian)", minimum=3)
     from . import intunits
